@@ -133,6 +133,25 @@ CHECKS = {
         "Lifecycles plain/reusable/nested x clean (4 ways)/killed/broken/timed-out/resized, sequences of up to 3 lifecycles repeated N in {2,5,20} times; exact equality of the four censuses.",
         "DESIGN.md section 3, C20",
     ),
+    "C14": {
+        "level": "exploration",
+        "technique": "recorded operation histories of real primitives shared by threads and LokyProcess children, checked offline (hold-interval overlap, lost-update counter, phase-structured Condition rounds, WGL linearizability of Event histories) under sys.monitoring delay injection at every statement of Condition/Event methods",
+        "text": "Real Lock/RLock/Semaphore/BoundedSemaphore/Condition/Event from LokyContext shared by up to 6 threads and 4 child processes (pickled copies); every operation recorded on the "
+        "system-wide monotonic clock; schedules diversified by jitter and by point delays between the semaphore steps of wait/notify/notify_all; ~1.5k histories / 3e5 operations in the quick tier.",
+        "design_ref": "DESIGN.md section 3, C14",
+        "note": "Trusted: records that prove a hold are timestamped inside the hold; liveness clauses are bounded waits (10 s) judged only when the coordinator itself was not starved; interleavings inside the C code of _multiprocessing.SemLock are not reachable by statement-boundary injection.",
+        "engine": "sync_stress",
+    },
+    "C15": {
+        "level": "exploration",
+        "technique": "registry snapshots before/after every operation + marker-stamping reducers through real picklers/queues/executors + differential round-trip behaviour + pickler-name probes inside workers with the manager's dispatch delayed by the injector",
+        "text": "Seeded orders of pickler/executor creation with custom reducers; copyreg, cloudpickle, pickle and loky registries compared with their pristine snapshots after every step; "
+        "reducers stamp markers so any influence on another pickling is visible; built-in reducers checked by behaviour on generated call arguments for both back-ends; the pickler name seen by "
+        "the worker compared with the name selected in the parent at submit time.",
+        "design_ref": "DESIGN.md section 3, C15",
+        "note": "Trusted: every scenario runs in its own child interpreter importing loky from the tree under test; time-outs/crashes of a scenario are inconclusive; only the two installed back-ends are exercised.",
+        "engine": "reduction_monitor",
+    },
     "C16": {
         "level": "exploration",
         "technique": "differential runtime oracle: generated functions/instances/classes wrapped by the real wrap_non_picklable_objects, compared with the bare object through real pickle round trips and a cross-process leg",
@@ -160,6 +179,8 @@ ENGINES = [
     {"name": "process-tree", "path": "harness/treecheck.py", "serves_properties": [], "kind_free_text": "real loky process trees in private pid+mount namespaces; sys.monitoring LINE injector (sleep/kill/signal at statement boundaries) in every process; client-boundary history + offline oracles"},
     {"name": "tracker_model", "path": "harness/inproc/tracker_model.py", "serves_properties": ["C11"], "kind_free_text": "real resource_tracker.main() on generated byte streams vs executable reference model"},
     {"name": "wrapper_gen", "path": "harness/inproc/wrapper_gen.py", "serves_properties": ["C16"], "kind_free_text": "seeded object generator + differential oracle for wrap_non_picklable_objects"},
+    {"name": "sync_stress", "path": "harness/inproc/sync_stress.py", "serves_properties": ["C14"], "kind_free_text": "stress driver for real synchronisation primitives across threads and LokyProcess children + offline history oracles"},
+    {"name": "reduction_monitor", "path": "harness/inproc/reduction_monitor.py", "serves_properties": ["C15"], "kind_free_text": "registry snapshots, marker-stamping reducers, round-trip differential, pickler-name probes"},
     {"name": "cpu_model", "path": "harness/inproc/cpu_model.py", "serves_properties": ["C17"], "kind_free_text": "input substitution + reference formula for cpu_count"},
 ]
 
